@@ -33,6 +33,9 @@ Ltac split_valid H :=
   repeat match type of H with (_ && _ = true) => let H' := fresh "Hv" in apply andb_prop in H; destruct H as [H H'] end.
 Ltac close_valid := repeat (apply andb_true_intro; split); assumption.
 
+(* the class-level guards stay folded while the validity invariant is pushed through assignments (a guard may itself be a conjunction) *)
+Opaque hem_guard_sigma hem_guard_p hem_guard_eta1 hem_guard_eta2 hem_guard_intensity merton_guard_sigma merton_guard_mu_j merton_guard_sigma_j merton_guard_intensity vg_guard_sigma vg_guard_nu vg_guard_theta cgmy_guard_c cgmy_guard_g cgmy_guard_m cgmy_guard_y bs_guard_sigma.
+
 Section P.
 Variable fsqrt : Q -> Q.
 Variable fgamma : Q -> Q.
@@ -227,13 +230,15 @@ Lemma bs_trial_absorbs r f x y : bs_guard f x = true -> bs_guard f y = true ->
   bs_initialisation (fst (bs_set (bs_initialisation (fst (bs_set r f y))) f x)) = bs_initialisation (fst (bs_set r f x)).
 Proof. intros Hx Hy. unfold bs_set. rewrite Hx, Hy. destruct f; reflexivity. Qed.
 
+Transparent hem_guard_sigma hem_guard_p hem_guard_eta1 hem_guard_eta2 hem_guard_intensity merton_guard_sigma merton_guard_mu_j merton_guard_sigma_j merton_guard_intensity vg_guard_sigma vg_guard_nu vg_guard_theta cgmy_guard_c cgmy_guard_g cgmy_guard_m cgmy_guard_y bs_guard_sigma.
 (* ---------- the predicate of every field of every class ---------- *)
 Lemma hem_guard_spec v :
-  (hem_guard HSigma v = true <-> 0 <= v) /\ (hem_guard HP v = true <-> 0 < v) /\ (hem_guard HEta1 v = true <-> 0 < v)
+  (hem_guard HSigma v = true <-> 0 <= v) /\ (hem_guard HP v = true <-> 0 <= v /\ v <= 1) /\ (hem_guard HEta1 v = true <-> 0 < v)
   /\ (hem_guard HEta2 v = true <-> 0 < v) /\ (hem_guard HIntensity v = true <-> 0 <= v) /\ hem_guard HXi v = true.
 Proof.
   simpl. unfold hem_guard_sigma, hem_guard_p, hem_guard_eta1, hem_guard_eta2, hem_guard_intensity.
-  repeat split; try apply cond_positive_spec; try apply cond_strictly_positive_spec.
+  split; [apply cond_positive_spec|]. split; [apply cond_between_spec|]. split; [apply cond_strictly_positive_spec|].
+  split; [apply cond_strictly_positive_spec|]. split; [apply cond_positive_spec | reflexivity].
 Qed.
 Lemma merton_guard_spec v :
   (merton_guard MSigma v = true <-> 0 <= v) /\ (merton_guard MMuJ v = true <-> 0 <= v)
@@ -558,7 +563,7 @@ Qed.
 Lemma constraints_all :
   (forall r f v, hem_guard f v = false -> hem_set r f v = (r, false))
   /\ (forall r f v, hem_guard f v = true -> hem_set r f v = (hem_write f v r, true))
-  /\ (forall v, (hem_guard HSigma v = true <-> 0 <= v) /\ (hem_guard HP v = true <-> 0 < v) /\ (hem_guard HEta1 v = true <-> 0 < v)
+  /\ (forall v, (hem_guard HSigma v = true <-> 0 <= v) /\ (hem_guard HP v = true <-> 0 <= v /\ v <= 1) /\ (hem_guard HEta1 v = true <-> 0 < v)
         /\ (hem_guard HEta2 v = true <-> 0 < v) /\ (hem_guard HIntensity v = true <-> 0 <= v) /\ hem_guard HXi v = true)
   /\ (forall r f v, merton_guard f v = false -> merton_set r f v = (r, false))
   /\ (forall r f v, merton_guard f v = true -> merton_set r f v = (merton_write f v r, true))
